@@ -788,7 +788,7 @@ func (rw *rewriter) nativeSelects(f *ast.File) {
 			}
 			hdrs = append(hdrs, h)
 		}
-		pre += "__si" + sfx + ", __sv" + sfx + ", __sok" + sfx + " := simrt.Select(simrt.Cases(" + strings.Join(cases, ", ") + ")); _, _ = __sv" + sfx + ", __sok" + sfx + "; switch __si" + sfx + " {"
+		pre += "__si" + sfx + ", __sv" + sfx + ", __sok" + sfx + " := simrt.Select(simrt.Cases(" + strings.Join(cases, ", ") + ")); _, _ = __sv" + sfx + ", __sok" + sfx + "; switch __si" + sfx + " { default: panic(\"simrt: select index out of range\");"
 		rw.edits = append(rw.edits, edit{rw.off(sel.Pos()), rw.off(sel.Body.Lbrace) + 1, pre})
 		for _, h := range hdrs {
 			rw.edits = append(rw.edits, edit{h.start, h.end, h.text})
